@@ -1,15 +1,18 @@
 (* C01 correspondence, extended case type.
      CReq c          an explicit request (every MapSpec written out): Corr/Run_C01.v, unchanged
-     CAuto c order   c_funcs c is the USER-LEVEL list (in a topological order): producers of arrays may have no MapSpec
+     CAuto c order aslist
+                     c_funcs c is the USER-LEVEL list (in a topological order): producers of arrays may have no MapSpec
                      although consumers index their outputs.  `order` is the order in which the functions are handed to
                      Pipeline([...]) (a permutation of the positions).  The model constructs the pipeline itself
                      (Model/AutoGen.construct), reports the MapSpec of every function of the constructed pipeline
-                     (structured and as str(f.mapspec)) and runs the map on the effective list. *)
-From Verif Require Export Corr.Run_C01 Model.AutoGen Model.AutoGenSpec.
+                     (structured and as str(f.mapspec)), applies the input validations of Pipeline.map
+                     (Model/MapPrepare.prepare_checks; `aslist` = names of the inputs passed as Python lists) and runs
+                     the map on the effective list.  The inputs need not conform (missing / surplus / list of rank 2). *)
+From Verif Require Export Corr.Run_C01 Model.AutoGen Model.AutoGenSpec Model.MapPrepare.
 
 Inductive case :=
 | CReq (c : Run_C01.case)
-| CAuto (c : Run_C01.case) (order : list nat).
+| CAuto (c : Run_C01.case) (order : list nat) (aslist : list str).
 
 (* ---------- observation of a MapSpec ---------- *)
 Definition sx_axis (a : option str) : sx := match a with Some x => SS x | None => SNone end.
@@ -72,34 +75,41 @@ Definition mkreq (c : Run_C01.case) (fs : list mfunc) : Run_C01.case :=
 Definition run (c : case) : sx :=
   match c with
   | CReq c => Run_C01.run c
-  | CAuto c order =>
+  | CAuto c order aslist =>
       match construct (permuted (c_funcs c) order) with
       | Err e => SErr e
       | Ok effp =>
           let specs := SL (map (fun f => sx_spec (fspec f)) effp) in
-          match Run_C01.run (mkreq c (reorder (c_funcs c) effp)) with
-          | SL [SS t; outs; calls] => SL [SS t; outs; calls; specs]
-          | e => SL [SS (s "maperr"); e; specs]
+          let eff := reorder (c_funcs c) effp in
+          match prepare_checks eff (c_inputs c) aslist with
+          | Err e => SL [SS (s "maperr"); SErr e; specs]
+          | Ok _ =>
+              match Run_C01.run (mkreq c eff) with
+              | SL [SS t; outs; calls] => SL [SS t; outs; calls; specs]
+              | e => SL [SS (s "maperr"); e; specs]
+              end
           end
       end
   end.
 
 (* The statement for CAuto: the reported MapSpecs are an admissible completion of the user-level list
    (Model/AutoGenSpec.v), and with them the request is answered as C01 demands (Run_C01.spec_ok: the denotation of the
-   effective list; a request that is valid with these MapSpecs is not refused by map).
+   effective list; a request that is valid with these MapSpecs is not refused by map) - provided the inputs conform
+   (Model/MapPrepare.conforming); nothing is demanded for non-conforming inputs.
    Nothing is demanded when CONSTRUCTION fails: that a completable list is never refused is proved for the model
    (C01_autogen_never_refuses) and transferred by the equality of observations. *)
 Definition spec_ok (c : case) (o : sx) : bool :=
   match c with
   | CReq c => Run_C01.spec_ok c o
-  | CAuto c order =>
+  | CAuto c order aslist =>
       let user := permuted (c_funcs c) order in
       let with_specs (specs : list sx) (k : Run_C01.case -> bool) : bool :=
         match un_list un_spec specs with
         | None => false
         | Some sps =>
             (length sps =? length user) && completion_ok user sps
-            && k (mkreq c (reorder (c_funcs c) (set_specs user sps)))
+            && let r := mkreq c (reorder (c_funcs c) (set_specs user sps)) in
+               if conforming (c_funcs r) (c_inputs r) aslist then k r else true
         end in
       match o with
       | SL [SS t; outs; calls; SL specs] =>
